@@ -125,6 +125,18 @@ theorem c13_sealed_eq_scan (pf : Bytes → Option Int) (maxKey : Int) (token : T
     sealedSearch pf maxKey token base blocks = some res :=
   sealed_eq_scan pf maxKey token base blocks ok res hres
 
+/-- **C13 (one index, many leaves).**  A sequence of `GetTIDsByTokenExpr` calls on one `sealedTokenIndex` - the leaves
+of one query, several conditions on the same field with longer or shorter leading literals in any order, empty hints
+(`*x`, ranges), other fields in between - answers every call with the scan of that call's field by that call's token:
+no call is influenced by an earlier one. -/
+theorem c13_sealed_seq_stateless (pf : Bytes → Option Int) (maxKey : Int) (fields : List (Nat × List (List Bytes)))
+    (hok : ∀ fb ∈ fields, BlocksOK fb.2) (calls : List (Nat × Token))
+    (hc : ∀ c ∈ calls, c.1 < fields.length ∧
+      (search pf maxKey c.2 ⟨(fields.getD c.1 (0, [])).1, (fields.getD c.1 (0, [])).2.flatten, false⟩).isSome = true) :
+    sealedSearchSeq pf maxKey fields calls =
+      calls.map fun c => search pf maxKey c.2 ⟨(fields.getD c.1 (0, [])).1, (fields.getD c.1 (0, [])).2.flatten, false⟩ :=
+  sealedSearchSeq_stateless pf maxKey fields hok calls hc
+
 /-- sealed path = glob semantics: "searching a sorted on-disk dictionary with prefix narrowing and block
 pre-selection returns the same token set as scanning every token" -/
 theorem c13_sealed_search_eq_glob (pf : Bytes → Option Int) (maxKey : Int) (terms : List Term) (hwf : WF terms)
